@@ -24,6 +24,9 @@ const (
 	lvlFgBg   = slog.Level(21) // registered with foreground and background
 	lvlNoClr  = slog.Level(22) // registered without colours, custom tags
 	lvlUnreg  = slog.Level(77) // never registered
+	lvlCJK    = slog.Level(23) // registered under a CJK title, tags derived from it
+	lvlCyr    = slog.Level(24) // registered under a Cyrillic title
+	lvlMBTags = slog.Level(25) // registered with multi-byte custom tags
 )
 
 var customRegistered bool
@@ -35,11 +38,14 @@ func registerCustomLevels() {
 	customRegistered = true
 	_ = slog.RegisterLevel(lvlFgOnly, "notice", slog.RegWithColor(color.FgLightBlue), slog.RegWithTreatedAsLevel(slog.InfoLevel))
 	_ = slog.RegisterLevel(lvlFgBg, "swell", slog.RegWithColor(color.FgRed, color.BgUnderline), slog.RegWithTreatedAsLevel(slog.ErrorLevel), slog.RegWithPrintToErrorDevice(true))
+	_ = slog.RegisterLevel(lvlCJK, "\u8b66\u544a\u7ea7\u522b\u4e00", slog.RegWithColor(color.FgYellow))
+	_ = slog.RegisterLevel(lvlCyr, "\u0443\u0432\u0435\u0434\u043e\u043c\u043b\u0435\u043d\u0438\u0435", slog.RegWithTreatedAsLevel(slog.InfoLevel))
+	_ = slog.RegisterLevel(lvlMBTags, "mbtags", slog.RegWithShortTags([6]string{"", "\u00e9", "\u00e9\u00e0", "\u65e5\u672c\u8a9e", "\u65e5\u672c\u8a9e\u3060", "\U0001f600\u65e5\u672c\u8a9e\u3060"}))
 	_ = slog.RegisterLevel(lvlNoClr, "plainlvl", slog.RegWithShortTags([6]string{"", "p", "pl", "pln", "plnl", "plnlv"}), slog.RegWithTreatedAsLevel(slog.DebugLevel))
 }
 
 var colorLevels = []slog.Level{slog.PanicLevel, slog.FatalLevel, slog.ErrorLevel, slog.WarnLevel, slog.InfoLevel, slog.DebugLevel, slog.TraceLevel,
-	slog.AlwaysLevel, slog.OKLevel, slog.SuccessLevel, slog.FailLevel, lvlFgOnly, lvlFgBg, lvlNoClr, lvlUnreg}
+	slog.AlwaysLevel, slog.OKLevel, slog.SuccessLevel, slog.FailLevel, lvlFgOnly, lvlFgBg, lvlNoClr, lvlUnreg, lvlCJK, lvlCyr, lvlMBTags}
 
 type c06case struct {
 	recCase
